@@ -18,7 +18,8 @@ def labelledRenderOp (lawOf : String → Option String) (args : List String) : S
 def c08Op := labelledRenderOp fun k =>
   if k == "ISOLATION" then some "render-changed-the-callers-variables"
   else if k == "ARGS-ONLY" then some "render-output-depends-on-the-caller"
-  else if k == "FOR-AS" then some "render-for-iterations-are-not-independent-renders" else none
+  else if k == "FOR-AS" then some "render-for-iterations-are-not-independent-renders"
+  else if k == "DYN-NAME" then some "a-tag-with-a-variable-name-uses-the-partial-named-now" else none
 /-- `c07r`: a path case labelled by the harness's reference resolution of the path -/
 def c07rOp := labelledRenderOp fun k =>
   if k == "PATHLAW" then some "a-path-denotes-what-the-statement-says-or-fails" else none
